@@ -27,17 +27,18 @@ import (
 // stream of climbing and root spellings.
 //
 // The generator EXECUTES the history on the real code while it writes it (one fsdrv.Session), only to steer
-// clear of three things the line-by-line comparison cannot express (the oracle judges them separately):
-//   - copy arguments that overlap (equal or one a prefix of the other): through the cache this never
-//     returns (reader and writer handle on the same buffer file / a walk that feeds itself) — KF-C06-7;
+// clear of two things the line-by-line comparison cannot express (the oracle judges them separately):
 //   - a directory copied onto a destination that already has children in the buffer: fshelper.Copy stops
 //     at the first error with whatever its goroutines had copied so far (not a function of the history);
 //   - reads between a failed Commit and the next successful one, and `failat` when the number of remote
 //     calls of Commit depends on the map iteration order (nested recursive removes that both exist remotely).
+// Copy arguments that overlap (equal, or one inside the other, the root included) ARE generated: since the repair
+// of KF-C06-7 the cache refuses them.  Should such a call not return (the defect is back) the watchdog answers
+// `hang`, the comparison with the model reports it, and this generator stops drawing overlapping arguments for the
+// rest of its run so that the campaign still finishes.
 //
 // `genclean`: the class of the `_partial` theorems — write, writer, mkdir, copyfile to an absent destination,
-// every operation issued only when it succeeds when applied directly (flat reference), WriteFile paths whose
-// last segment is a real name; plus removes of nodes that exist only in the buffer (before the first commit).
+// every operation issued only when it succeeds when applied directly (flat reference); plus removes of nodes that exist only in the buffer (before the first commit).
 // ---------------------------------------------------------------------------------------------
 
 var pool = []string{"a", "b", "c"}
@@ -66,6 +67,8 @@ type hgen struct {
 	committed bool
 	// nestedEnd: nestedRemoveAll() just before the final commit block
 	nestedEnd bool
+	// noOverlap: an overlapping copy did not return in this run (KF-C06-7 is back): draw no more of them
+	noOverlap bool
 }
 
 func newGen(r *hx.Rand, clean int) *hgen {
@@ -316,9 +319,9 @@ func (g *hgen) mutate() [][]string {
 	}
 	switch word {
 	case "write":
-		s, sp := g.path(g.clean > 0)
+		s, sp := g.path(false)
 		if polite {
-			s, sp = g.politePath(true, func(x []string) bool { return !g.clash(h, x, true) })
+			s, sp = g.politePath(false, func(x []string) bool { return !g.clash(h, x, true) })
 		}
 		data := hx.Enc(g.content())
 		if g.clean > 0 && g.refLine("write %d %s %s", h, hp(sp), data) != "ok" {
@@ -395,15 +398,20 @@ func (g *hgen) mutate() [][]string {
 		if s == nil && d == nil {
 			return nil
 		}
-		// never the root as an argument, never overlapping arguments (KF-C06-7: would not return)
-		// (a rooted climbing spelling such as `/..` is cleaned to the root by the cache: KF-C07-6)
-		if isRootSpelling(ssp) || isRootSpelling(dsp) || (s == nil && strings.HasPrefix(ssp, "/")) || (d == nil && strings.HasPrefix(dsp, "/")) {
-			g.count["steer:overlap"]++
-			return nil
-		}
-		if s != nil && d != nil && (isPrefix(s, d) || isPrefix(d, s)) {
-			g.count["steer:overlap"]++
-			return nil
+		// overlapping arguments: the root as an argument (a rooted climbing spelling such as `/..` is cleaned to
+		// the root by the cache: KF-C07-6), equal paths, one inside the other — refused by the cache (fix of KF-C06-7)
+		overlapping := isRootSpelling(ssp) || isRootSpelling(dsp) || (s == nil && strings.HasPrefix(ssp, "/")) ||
+			(d == nil && strings.HasPrefix(dsp, "/")) || (s != nil && d != nil && (isPrefix(s, d) || isPrefix(d, s)))
+		if overlapping {
+			if g.noOverlap || g.clean > 0 {
+				g.count["steer:overlap"]++
+				return nil
+			}
+			g.count["copy:overlapping"]++
+			if g.emit("%s %d %s %s", word, h, hp(ssp), hp(dsp)) == "hang" {
+				g.noOverlap = true
+			}
+			return [][]string{cat(base, s), cat(base, d)}
 		}
 		if s != nil && d != nil && word != "copyfile" {
 			// a directory source onto a destination that has children in the buffer: outcome of a failing
